@@ -61,4 +61,9 @@ TEXT = {
   "level_text": "Exploration: templates that iterate, filter or print maps (untyped and four typed kinds, nested) and hash literals with 2-8 entries in 24 forms, date filters over all 18 translated letters, and non-basic values (pointers, structs, typed slices, arrays, named types) in 7 print positions; every case rendered 8 times on fresh engines with the context rebuilt from its description in three insertion orders, every fifth case additionally in two fresh processes; all outputs must be byte-identical. Every single letter and ordered letter pair of the date formats is enumerated on three instants against the harness's own translator.",
   "level_note": "Determinism is inferred from agreement of 8-10 runs (a 2-entry map has two orders: miss probability 2^-7 per case). The direct date oracle is applied only where letters are separated by literals (how Go's layout parser reads adjacent translated pieces is not part of the statement). Known finding F42 (nested pointers / dump() print addresses) is excluded by construction and replayed.",
  },
+ "C19": {
+  "technique": "property-based testing (rapid) of algebraic laws and reference implementations + exhaustive slice-argument grid and emptiness table; oracles = the stated equations, a 15-line reference of the slice index rules, math/big exact decimal arithmetic",
+  "level_text": "Exploration: idempotence (upper, lower, trim, capitalize), reverse involution and length preservation, sort = ordered permutation that leaves its input alone, length = for-iterations = what first/last/slice see, join/split round trip, list merge = concatenation, map merge = later wins with every key once, and slice index rules, on strings (ASCII, multi-byte, special-casing letters, named type), untyped and typed lists, arrays and maps; slice(start[,length]) enumerated exhaustively for all arguments in [-(n+2), n+2], n <= 6, on six sequence types; default on a table of 30 empty and 25 non-empty values of every numeric width; abs/round/number_format on random decimals against math/big.",
+  "level_note": "Results observed through json_encode (trusted as a faithful encoder). Sorting order of numbers: numeric or by printed form are both accepted (the statement does not fix the relation; an existing test pins string order for mixed lists). Exact decimal ties accept either neighbour. Multi-character split separators are a listed known finding (F28) and are not generated.",
+ },
 }
